@@ -234,7 +234,10 @@ class C11(Prop):
         "gumbel_profile_concave", "gumbel_complete_fit_near_optimal", "gumbel_censored_fit_near_optimal",
         "cg_return_means_stopping_rule", "cg_hangs_only_in_brent", "weibull_sxp_fit_post", "truncated_gumbel_fit_post", "weibull_binned_fit_post", "gamma_binned_fit_post", "gamma_engine_post", "cg_fit_location_is_minimum",
         "exp_fit_closed_form", "exp_fit_is_maximiser", "gumbel_mu_is_maximiser", "lawless_is_derivative", "gumbel_complete_fit_stationary",
-        "gumbel_censored_fit_stationary", "gumbel_loc_fits_closed_form", "gumbel_fits_terminate")]
+        "gumbel_censored_fit_stationary", "gumbel_loc_fits_closed_form", "gumbel_fits_terminate",
+        # round 3: the solvers
+        "bisection_total_documented_status", "bisection_keeps_root_bracketed", "newton_root_total_documented_status", "bisection_converges", "bisection_negative_root_regression",
+        "bracket_postcondition", "brent_descends_from_its_start", "brent_nonfinite_interval_exits", "cg_value_is_objective_at_result", "cg_is_not_a_descent_method")]
     claimed = True
     technique = ("Lean 4 proof over an executable line-by-line model (numeric class: Float for the bit-exact differential run, Q/R for the theorems) "
                  "+ bit-exact correspondence with the ASan/UBSan-built C code + exact-rational / log-likelihood property monitors")
@@ -449,6 +452,17 @@ class C11(Prop):
         c.append({"name": "regress-sxp-unbounded-likelihood", "sticky": 1, "meta": {"law": "sxp", "mod": "none"}, "ops": [
             "data xs=40404a0598800000,4050d75f30880000,40418305398c0001,40500727c7e00001,404c4748bbca0000,404d7b6c762a0000,4053ab22a4e30000,404381e5fe860001,4058237edc190000,40410fd575620000",
             "fit kind=sxp"]})
+        # regression (repaired in 8354c02): negative roots never satisfied the convergence test of esl_rootfinder.c (rel_tolerance*x instead of *|x|)
+        c.append({"name": "rootfinder-negative-root", "sticky": 2, "meta": {"mod": "solver"}, "ops": ['root meth=bis fam=poly c=c000000000000000,0000000000000000,3ff0000000000000 xl=c008000000000000 xr=bff0000000000000', 'root meth=newton fam=poly c=c000000000000000,0000000000000000,3ff0000000000000 guess=bff0000000000000']})
+        # the same function on the positive axis converges
+        c.append({"name": "rootfinder-positive-root", "sticky": 2, "meta": {"mod": "solver"}, "ops": [
+            "root meth=bis fam=poly c=%s,%s,%s xl=%s xr=%s" % (d(-2), d(0), d(1), d(1), d(3)), "root meth=newton fam=poly c=%s,%s,%s guess=%s" % (d(-2), d(0), d(1), d(1))]})
+        # esl_min_ConjugateGradientDescent() is not a descent method: started AT the minimiser of a needle-shaped objective (f(0) = 0, f = 1 + |x| elsewhere)
+        # it answers eslOK with fx = 1.00000004 > f(x0) = 0 (brent() starts from the golden-section point of the bracket and never looks at bx again)
+        c.append({"name": "cgd-not-a-descent-method", "sticky": 1, "meta": {"mod": "solver"}, "ops": [
+            "cgd fam=needle p=%s,%s,%s x0=%s" % (d(1), d(0), d(1), d(0))]})
+        # regression (repaired in 6da6a89): max_iterations = 0 returned an uninitialised *opt_fx
+        c.append({"name": "cgd-maxiter0-uninitialised-fx", "sticky": 1, "meta": {"mod": "solver"}, "ops": ['cgd fam=rosen p=3ff0000000000000 x0=0000000000000000,0000000000000000 cfg=create maxit=0']})
         xs = [0.5, 1.0, 1.5, 3.2, 2.5, 7, 7]
         c.append({"name": "fit-basic", "sticky": 1, "ops": ["data xs=" + ",".join(d(x) for x in xs)] + self.fit_ops(xs, None)})
         return c
@@ -779,6 +793,212 @@ class C11(Prop):
                         return F("esl_%s_FitCountHistogram returned %r, the complete-data fit of the expanded data returns %r" % (kind, [fbits(t) for t in w[1:]], [fbits(t) for t in x[1:]]))
         return None
 
+
+    # ---- solvers: esl_rootfinder.c and esl_minimizer.c driven directly on shared objective families ----------------
+    def solver_cases(self, ctx, count):
+        rng = ctx.rng; d = dbits
+        def bl(v): return ",".join(d(x) for x in v) if v else "-"
+        def rnd_scale(): return rng.choice([1e-3, 0.1, 1.0, 1.0, 7.5, 1e3, 1e6])
+        out = []
+        for k in range(count):
+            ops = []
+            for _ in range(rng.randint(3, 8)):
+                t = rng.random()
+                if t < 0.30:      # ---- bisection
+                    fam = rng.choice(["poly", "poly", "poly", "exp", "log"])
+                    neg = rng.random() < 0.35                    # roots on the negative axis (8354c02)
+                    r = rnd_scale() * rng.uniform(0.5, 2.0)
+                    if fam == "poly":
+                        root = -r if neg else r
+                        kind = rng.randrange(4)
+                        if kind == 0: c = [-root * rng.choice([1.0, -2.0, 0.5]), 1.0]; c[1] = c[0] / -root
+                        elif kind == 1: c = [-(root * root), 0.0, 1.0]                       # x^2 - root^2
+                        elif kind == 2: c = [-(root ** 3), 0.0, 0.0, 1.0]
+                        else:
+                            r2, r3 = root * rng.uniform(3, 5), root * rng.uniform(-4, -2)     # three real roots
+                            c = [-root * r2 * r3, root * r2 + root * r3 + r2 * r3, -(root + r2 + r3), 1.0]
+                        lo, hi = sorted([root * rng.uniform(0.05, 0.9), root * rng.uniform(1.1, 2.5)])
+                    elif fam == "exp":
+                        a = rng.choice([0.5, 1.0, -1.0, 2.0]); c = [math.exp(a * r) if abs(a * r) < 600 else 3.0, a]
+                        root = r if abs(a * r) < 600 else math.log(3.0) / a
+                        lo, hi = sorted([root - rng.uniform(0.1, 3) * abs(root) - 0.1, root + rng.uniform(0.1, 3) * abs(root) + 0.1])
+                    else:
+                        c = [math.log(r)]; root = r; lo, hi = r * rng.uniform(0.01, 0.9), r * rng.uniform(1.1, 50)
+                    u = rng.random()
+                    if u < 0.08: lo, hi = hi, lo                                               # reversed bracket
+                    elif u < 0.16: hi = lo + (hi - lo) * 1e-3 if fam != "poly" else root * 0.99 if root > 0 else root * 1.01   # may not bracket
+                    elif u < 0.20: lo = -abs(hi)                                               # straddles zero
+                    elif u < 0.23: c[rng.randrange(len(c))] = rng.choice([float("nan"), float("inf"), -float("inf")])
+                    elif u < 0.26: lo = root                                                   # an end point IS the root: fl*fr == 0
+                    op = "root meth=bis fam=%s c=%s xl=%s xr=%s" % (fam, bl(c), d(lo), d(hi))
+                    v = rng.random()
+                    if v < 0.15: op += " maxit=%d" % rng.choice([-1, 0, 1, 2, 5, 30, 53, 200])
+                    if v > 0.85: op += " abstol=%s" % d(rng.choice([1e-6, 1e-3, 0.0, 1e-300]))
+                    if 0.7 < v < 0.8: op += " reltol=%s" % d(rng.choice([1e-3, 1e-9, 0.0]))
+                    if 0.6 < v < 0.7: op += " restol=%s" % d(rng.choice([1e-8, 1e-3, 10.0]))
+                    if rng.random() < 0.15: op += " reps=%d" % rng.choice([2, 3])
+                    if rng.random() < 0.2: op += " fdf=1"
+                    ops.append(op)
+                elif t < 0.50:    # ---- Newton/Raphson
+                    fam = rng.choice(["poly", "poly", "exp", "log"])
+                    r = rnd_scale() * rng.uniform(0.5, 2.0)
+                    if rng.random() < 0.35: r = -r
+                    if fam == "poly":
+                        c = rng.choice([[-r, 1.0], [-(r * r), 0.0, 1.0], [-(r ** 3), 0.0, 0.0, 1.0], [r * r, 0.0, 1.0], [1.0, 0.0, -3.0, 1.0 / (r * r)]])
+                        g = r * rng.choice([1.0, 1.001, 0.5, 2.0, 10.0, -1.0, 0.0])
+                    elif fam == "exp":
+                        a = rng.choice([0.5, 1.0, -1.0]); r = max(-300.0, min(300.0, r)); c = [math.exp(a * r), a]; g = r + rng.uniform(-2, 2)
+                    else:
+                        r = abs(r); c = [math.log(r)]; g = r * rng.choice([0.5, 0.9, 1.0, 1.5, 3.0])   # 3.0: steps to a negative x -> NaN
+                    op = "root meth=newton fam=%s c=%s guess=%s" % (fam, bl(c), d(g))
+                    v = rng.random()
+                    if v < 0.15: op += " maxit=%d" % rng.choice([-1, 0, 1, 2, 5, 30, 200])
+                    if v > 0.85: op += " abstol=%s" % d(rng.choice([1e-6, 1e-3, 0.0]))
+                    if 0.7 < v < 0.8: op += " reltol=%s" % d(rng.choice([1e-3, 1e-9, 0.0]))
+                    if 0.6 < v < 0.7: op += " restol=%s" % d(rng.choice([1e-8, 1e-3]))
+                    if rng.random() < 0.15: op += " reps=2"
+                    ops.append(op)
+                else:             # ---- minimiser: cgd / bracket / brent
+                    fam = rng.choice(["quad", "quad", "rosen", "explin", "logbar", "needle"])
+                    n = 2 if fam == "rosen" else rng.choice([1, 1, 2, 2, 3, 4, 6])
+                    sc = rng.choice([1e-2, 1.0, 1.0, 30.0])
+                    b = [rng.uniform(-3, 3) * sc for _ in range(n)]
+                    if fam == "quad":
+                        a = [rng.choice([1.0, 0.25, 3.0, 1e-3, 1e3, rng.uniform(0.1, 10)]) for _ in range(n)]
+                        if rng.random() < 0.08: a[rng.randrange(n)] = rng.choice([0.0, -1.0])          # flat / unbounded direction
+                        p = a + b
+                    elif fam == "rosen": p = [rng.choice([1.0, 10.0, 100.0])]
+                    elif fam == "explin":
+                        a = [rng.choice([1.0, 0.5, -1.0, 2.0]) for _ in range(n)]
+                        p = a + [ai * math.exp(ai * bi / max(1.0, sc)) for ai, bi in zip(a, b)]        # minimum at x_i = b_i/max(1,sc)
+                    elif fam == "logbar": p = [rng.uniform(0.5, 5) for _ in range(n)]
+                    else: p = [rng.uniform(0.5, 2) for _ in range(n)] + b + [rng.choice([1.0, 0.01, 100.0])]
+                    if fam == "logbar": x0 = [rng.uniform(0.05, 9) for _ in range(n)]
+                    elif fam == "rosen": x0 = rng.choice([[-1.2, 1.0], [0.0, 0.0], [1.0, 1.0], [3.0, -2.0]])
+                    elif rng.random() < 0.12: x0 = list(b)                                            # start AT the optimum
+                    else: x0 = [bi + rng.uniform(-2, 2) * sc for bi in b]
+                    cfg = ""
+                    if rng.random() < 0.45:
+                        cfg = " cfg=create"
+                        if rng.random() < 0.4: cfg += " maxit=%d" % rng.choice([0, 1, 2, 5, 20, 500])
+                        if rng.random() < 0.25: cfg += " brackmax=%d" % rng.choice([0, 1, 3, 10])
+                        if rng.random() < 0.3: cfg += " u=%s" % bl([rng.choice([2.0, 0.1, 1.0, 10.0]) for _ in range(n)])
+                        if rng.random() < 0.2: cfg += " cgrtol=%s" % d(rng.choice([1e-4, 1e-8, 1e-2]))
+                        if rng.random() < 0.15: cfg += " brtol=%s batol=%s" % (d(rng.choice([1e-3, 1e-6, 0.1])), d(rng.choice([1e-8, 1e-12, 1e-3])))
+                        if rng.random() < 0.15: cfg += " dstep=%s" % d(rng.choice([1e-4, 1e-6, 1e-2]))
+                    w = rng.random()
+                    if w < 0.55:
+                        ops.append("cgd fam=%s p=%s x0=%s%s%s" % (fam, bl(p), bl(x0), " grad=1" if fam == "quad" and rng.random() < 0.5 else "", cfg))
+                    else:
+                        dvec = [rng.choice([1.0, -1.0, 0.5, 3.0, rng.uniform(-2, 2)]) for _ in range(n)]
+                        if rng.random() < 0.05: dvec[rng.randrange(n)] = rng.choice([float("nan"), float("inf")])
+                        if w < 0.78:
+                            first = rng.choice([1.0, 1.0, -1.0, 0.1, 10.0, 1e-6, 1e3]) * rng.uniform(0.5, 2)
+                            if rng.random() < 0.04: first = rng.choice([0.0, float("nan"), float("inf")])
+                            ops.append("bracket fam=%s p=%s ori=%s d=%s first=%s%s" % (fam, bl(p), bl(x0), bl(dvec), d(first), cfg))
+                        else:
+                            a_, b_ = sorted([rng.uniform(-5, 0.5) * sc, rng.uniform(0.5, 9) * sc])
+                            u = rng.random()
+                            if u < 0.06: a_, b_ = b_, a_
+                            elif u < 0.10: b_ = rng.choice([float("inf"), float("nan")])
+                            elif u < 0.13: b_ = a_
+                            ops.append("brent fam=%s p=%s ori=%s d=%s a=%s b=%s%s" % (fam, bl(p), bl(x0), bl(dvec), d(a_), d(b_), cfg))
+            out.append({"name": "solver-%d" % k, "sticky": 0, "meta": {"mod": "solver"}, "ops": ops})
+        return out
+
+    @staticmethod
+    def _rf(fam, c, x):
+        c = list(c) + [0.0] * 4
+        try:
+            if fam == "poly": return ((c[3] * x + c[2]) * x + c[1]) * x + c[0]
+            if fam == "exp": return math.exp(c[1] * x) - c[0]
+            return math.log(x) - c[0] if x > 0 else float("nan")
+        except (OverflowError, ValueError):
+            return float("nan")
+
+    @staticmethod
+    def _obj(fam, p, x):
+        """python replica (same operation order) of the libm-free objective families; None for the others"""
+        n = len(x); P = lambda i: p[i] if 0 <= i < len(p) else 0.0
+        if fam == "quad":
+            fx = 0.0
+            for i in range(n): fx += P(i) * (x[i] - P(n + i)) * (x[i] - P(n + i))
+            return fx
+        if fam == "rosen":
+            t1 = 1.0 - x[0]; t2 = (x[1] if n > 1 else 0.0) - x[0] * x[0]
+            return t1 * t1 + P(0) * t2 * t2
+        if fam == "needle":
+            fx = 0.0; same = True
+            for i in range(n):
+                fx += 2.0 * P(i) * (x[i] - P(n + i)) if x[i] > P(n + i) else P(i) * (P(n + i) - x[i])
+                if not x[i] == P(n + i): same = False
+            return fx if same else fx + P(2 * n)
+        return None
+
+    def monitor_solver(self, case, ops, out):
+        """what the documentation of esl_rootfinder.c / esl_minimizer.c promises, checked on the implementation's answers"""
+        self._solver = getattr(self, "_solver", {})
+        for op, l in zip(ops, out):
+            a = kv(op); name = op.split()[0]
+            if l == "bad-op": continue
+            if name == "root":
+                c = parse_xs(a["c"]); fam = a["fam"]
+                for part in l.split(" | "):
+                    st = part.split()[0]; r = kv("x " + part)
+                    self._solver["root:" + a["meth"] + ":" + st] = self._solver.get("root:" + a["meth"] + ":" + st, 0) + 1
+                    if a["meth"] == "bis":
+                        if st not in ("ok", "einval", "enohalt"): return Failure("monitor", "esl_root_Bisection: undocumented status %s" % st)
+                        lo, hi = fbits(a["xl"]), fbits(a["xr"]); x = fbits(r["x"]); fl, fr = self._rf(fam, c, lo), self._rf(fam, c, hi)
+                        if st != "ok" and x != 0.0: return Failure("monitor", "esl_root_Bisection: *ret_x not 0 on failure")
+                        fin = all(math.isfinite(v) for v in c + [lo, hi, fl, fr])
+                        if fin and abs(fl * fr) > 1e-280:
+                            if (fl * fr > 0) != (st == "einval"): return Failure("monitor", "esl_root_Bisection: eslEINVAL iff the end points do not bracket a root, got %s" % st)
+                        if st == "ok" and fin and lo < hi:
+                            xl, xr = fbits(r["xl"]), fbits(r["xr"])
+                            if not (lo <= xl <= x <= xr <= hi): return Failure("monitor", "esl_root_Bisection: root or final bracket outside the caller's bracket")
+                            fa, fb = self._rf(fam, c, xl), self._rf(fam, c, xr)
+                            if fam == "poly" and fa * fb > 0: return Failure("monitor", "esl_root_Bisection: the final bracket has no sign change")
+                        if (st == "enohalt" and fin and lo < hi and fl * fr < 0 and "maxit" not in a and "reps" not in a
+                                and not any(k in a for k in ("abstol", "reltol", "restol"))):
+                            # "The bisection method is guaranteed to succeed, provided that xl,xr do indeed bracket a root"
+                            return Failure("monitor", "esl_root_Bisection fails (eslENOHALT) on a valid bracket [%r, %r] with the default tolerances" % (lo, hi))
+                    else:
+                        if st not in ("ok", "enohalt"): return Failure("monitor", "esl_root_NewtonRaphson: undocumented status %s" % st)
+                        if st == "enohalt" and "maxit" not in a and "reps" not in a and not any(k in a for k in ("abstol", "reltol", "restol")):
+                            x, x0 = fbits(r["x"]), fbits(r["x0"])
+                            if math.isfinite(x) and x != 0 and abs(x - x0) <= 4e-16 * abs(x):      # converged to the last bit, yet "failed to converge"
+                                return Failure("monitor", "esl_root_NewtonRaphson fails (eslENOHALT) although the iterates agree to the last bit at x=%r" % x)
+            elif name == "cgd":
+                st = l.split()[0]
+                self._solver["cgd:" + st] = self._solver.get("cgd:" + st, 0) + 1
+                if st.startswith("fault"): continue
+                if st not in ("ok", "enohalt", "erange", "enoresult"): return Failure("monitor", "esl_min_ConjugateGradientDescent: undocumented status %s" % st)
+                r = kv(l); fx = fbits(r["fx"])
+                if st in ("erange", "enoresult") and fx != math.inf: return Failure("monitor", "esl_min_ConjugateGradientDescent: *opt_fx must be +inf on a thrown exception")
+                if st == "enohalt":
+                    v = self._obj(a["fam"], parse_xs(a["p"]), parse_xs(r["x"]))
+                    if v is not None and v != fx and not (math.isnan(v) and math.isnan(fx)):
+                        return Failure("monitor", "esl_min_ConjugateGradientDescent: eslENOHALT, *opt_fx (%r) is not the objective at the returned point (%r)" % (fx, v))
+                if st == "ok":
+                    if not math.isfinite(fx): return Failure("monitor", "esl_min_ConjugateGradientDescent: eslOK with a non-finite minimum")
+                    x = parse_xs(r["x"]); v = self._obj(a["fam"], parse_xs(a["p"]), x)
+                    if v is not None and v != fx: return Failure("monitor", "esl_min_ConjugateGradientDescent: *opt_fx (%r) is not the objective at the returned point (%r)" % (fx, v))
+                    v0 = self._obj(a["fam"], parse_xs(a["p"]), parse_xs(a["x0"]))
+                    if v0 is not None and fx > v0: self._solver["cgd:ok-but-worse-than-start"] = self._solver.get("cgd:ok-but-worse-than-start", 0) + 1
+            elif name == "bracket":
+                st = l.split()[0]
+                self._solver["bracket:" + st] = self._solver.get("bracket:" + st, 0) + 1
+                if st not in ("ok", "enoresult"): return Failure("monitor", "bracket(): undocumented status %s" % st)
+                if st == "ok":
+                    r = kv(l); ax, bx, cx, fa, fb, fc = (fbits(r[k]) for k in ("ax", "bx", "cx", "fa", "fb", "fc"))
+                    first = fbits(a["first"])
+                    if all(math.isfinite(v) for v in (ax, bx, cx, fa, fb, fc)) and first != 0.0:
+                        if not (ax < bx < cx): return Failure("monitor", "bracket(): returned points not in order a < b < c")
+                        if not (fb <= fa and fb <= fc): return Failure("monitor", "bracket(): f(b) is not the smallest of the three values")
+            elif name == "brent":
+                self._solver["brent"] = self._solver.get("brent", 0) + 1
+        return None
+
     def cases(self, ctx):
         rng = ctx.rng
         nh = 700 if ctx.tier == "quick" else 4000
@@ -788,6 +1008,9 @@ class C11(Prop):
         nfit = len(out) - nh
         out += self.binned_cases(ctx, 60 if ctx.tier == "quick" else 300)
         out += self.count_cases(ctx, 40 if ctx.tier == "quick" else 400)
+        ns = len(out)
+        out += self.solver_cases(ctx, 220 if ctx.tier == "quick" else 2000)
+        self._nsolver = len(out) - ns
         self._dist = {"hist_cases": nh, "fit_cases": nfit, "binned_fit_cases": len(out) - nh - nfit}
         return out
 
@@ -808,6 +1031,8 @@ class C11(Prop):
             return self.monitor_hist(case, ops, out)
         if case.get("meta", {}).get("mod") == "count":
             return self.monitor_count(case, ops, out)
+        if case.get("meta", {}).get("mod") == "solver":
+            return self.monitor_solver(case, ops, out)
         if ops and ops[0].startswith("data"):
             return self.monitor_fit(case, ops, out)
         return None
@@ -1302,7 +1527,7 @@ class C11(Prop):
         return None
 
     def extra_evidence(self, ctx):
-        return {"input_distribution": getattr(self, "_dist", {}), "optimiser_fit_max_relative_logL_gap": getattr(self, "_calib", {}),
+        return {"input_distribution": dict(getattr(self, "_dist", {}), solver_cases=getattr(self, "_nsolver", 0)), "solver_ops_by_status": getattr(self, "_solver", {}), "optimiser_fit_max_relative_logL_gap": getattr(self, "_calib", {}),
                 "max_recovery_error_on_quantile_grids": getattr(self, "_rec", {}),
                 "max_relative_logL_shortfall_vs_generating_parameters": getattr(self, "_truth", {})}
 
